@@ -220,7 +220,7 @@ class Exec:
             def both(a, b):
                 if op in ('&&', '||'):
                     self.need(a, 'bool'); self.need(b, 'bool')
-                    return k(('bool', '(%s %s %s)' % (a[1], op, b[1])))
+                    return k(('bool', '(%s %s %s)' % ('andb' if op == '&&' else 'orb', a[1], b[1])))
                 if op in ('+', '-'):
                     self.need(a, 'nat'); self.need(b, 'nat')
                     return k(('nat', '(%s %s %s)' % (a[1], op, b[1])))
